@@ -10,6 +10,7 @@
 (* beh is the behaviour of the parser module for this call:                *)
 (*   "absent" (no such module), "ok" (returns a JSON object), "nondict"    *)
 (*   (returns other JSON), "none" (returns None), "raise" (raises),        *)
+(*   "raise_empty" (raises an exception whose message is empty),          *)
 (*   "importerror" (raises ImportError from inside the call).              *)
 (***************************************************************************)
 EXTENDS Integers, Sequences, SequencesExt, HexDump
@@ -27,7 +28,7 @@ Route(s, plugins, beh) ==
     ELSE IF ~plugins THEN "dump"
     ELSE CASE beh = "absent" -> "dump"
            [] beh \in {"ok", "nondict"} -> "plugin"
-           [] beh \in {"none", "raise", "importerror"} -> "dump+error"
+           [] beh \in {"none", "raise", "raise_empty", "importerror"} -> "dump+error"
 
 \* NeverDropped: every route ends in exactly one class, and every class other than a
 \* rendering carries the payload
